@@ -112,4 +112,54 @@ def generate (ev : EvalExpr) (h : String → Nat) (st : Settings) (b : Bag) (a :
                    entries := builds.foldl (fun es i => addEntries es i.entries) [] }
   | errs => return .failed errs
 
+/-! ### the duplicate-output check (`check_duplicate_outputs`)
+
+Identical statements were merged by the entry set. Two different statements naming one output (an `outfile` or custom-build `out`
+that does not depend on builder/app, clashing download directories, one source listed by two modules under a non-shareable rule)
+would make ninja refuse the file: laze reports them instead of writing it. The check reads the statement *text*, as the code does:
+the words between `build ` and the first `:`. -/
+
+/-- a symbolic hash token `\x01 … \x02` (Model/Ninja.lean) stands for a decimal number: the characters inside it are not
+    text of the statement. `d` is the nesting depth of tokens. -/
+def tokDepth (d : Nat) (c : Char) : Nat := if c == '\x01' then d + 1 else if c == '\x02' then d - 1 else d
+
+def takeUntilColon : Nat → List Char → Option (List Char)
+  | _, [] => none
+  | d, c :: cs =>
+    if d == 0 && c == ':' then some []
+    else (takeUntilColon (tokDepth d c) cs).map (c :: ·)
+
+/-- `str::split(' ')` with the empty pieces filtered out -/
+def splitSpaces : Nat → List Char → List Char → List (List Char)
+  | _, cur, [] => if cur.isEmpty then [] else [cur.reverse]
+  | d, cur, c :: cs =>
+    if d == 0 && c == ' ' then (if cur.isEmpty then splitSpaces 0 [] cs else cur.reverse :: splitSpaces 0 [] cs)
+    else splitSpaces (tokDepth d c) (c :: cur) cs
+
+/-- the outputs a statement text names (`strip_prefix("build ")`, `split_once(':')`, `split(' ')`); rule blocks name none -/
+def entryOuts (e : String) : List String :=
+  match e.toList with
+  | 'b' :: 'u' :: 'i' :: 'l' :: 'd' :: ' ' :: rest =>
+    match takeUntilColon 0 rest with
+    | some outs => (splitSpaces 0 [] outs).map String.ofList
+    | none => []
+  | _ => []
+
+/-- the first output that was already named by an earlier statement (or earlier in the same one) -/
+def firstDup : List String → List String → Option String
+  | _, [] => none
+  | seen, x :: xs => if seen.contains x then some x else firstDup (x :: seen) xs
+
+def dupOutput (entries : List String) : Option String := firstDup [] (entries.flatMap entryOuts)
+
+/-- `Generator::execute` after configuring: the run fails when two statements name one output -/
+def generateChecked (ev : EvalExpr) (h : String → Nat) (st : Settings) (b : Bag) (a : Args) : Except GErr GenOutcome :=
+  match generate ev h st b a with
+  | .error e => .error e
+  | .ok (.failed errs) => .ok (.failed errs)
+  | .ok (.done r) =>
+    match dupOutput r.entries with
+    | some _ => .error (.error "generate.rs:output produced by more than one build statement")
+    | none => .ok (.done r)
+
 end Laze
